@@ -53,11 +53,9 @@ theorem apply_out_all {v v' : View} {e e' : Env} {a : Act} (ha : IsOut a)
       · simp at h
       · split at h
         · simp at h
-        · split at h
-          · simp at h
-          · simp at h
-            obtain ⟨rfl, rfl⟩ := h
-            obtain ⟨pre, post, h1, h2, _⟩ := split_book hb
+        · simp only [Option.some.injEq, Prod.mk.injEq] at h
+          obtain ⟨rfl, _⟩ := h
+          · obtain ⟨pre, post, h1, h2, _⟩ := split_book hb
             refine ⟨?_, AList.keys_set_of_mem _ _ _ (by simp [hb])⟩
             simp only [View.all, h1, h2]
             have : v.pool = v.pool.take k ++ v.pool.drop k := (List.take_append_drop k v.pool).symm
